@@ -850,11 +850,14 @@ def api_coverage(r):
     return {"states": r["tlc"]["distinct"], "transitions": r["tlc"]["states"], "traces_validated_against_impl": r["runs"],
             "samples": r["samples"], "histories": r["histories"], "configurations": r["cfgs"], "max_input_chars": r["maxlen"], "max_ops": r["maxops"],
             "simulated_traces_beyond_the_bound": r.get("simulated_traces"), "simulated_deep_states_replayed": r.get("simulated_deep_states"),
+            "recorded_call_sequences_validated_by_ApiTrace": r.get("trace_runs"), "recorded_calls_validated_by_ApiTrace": r.get("trace_events"),
             "rule": "LexerAPI.tla: every reachable state of two lexer slots (A/B token types, spanned or not) over every input of at most max_input_chars characters and every history of at most max_ops operations "
                     "from {next, bump(n) for every n up to len+2 and usize::MAX-1, usize::MAX, clone, clone_from, morph, spanned}; plus every history of at most max_ops - 1 operations in which a fresh lexer over a SECOND source buffer (the same characters rotated by one) "
                     "takes part (clone / clone_from / morph / spanned carry the source along with the position; the observation includes which buffer source() refers to); "
                     "plus seeded random simulation (TLC -simulate) of histories of up to 12 operations over inputs of up to 6 characters, every state on the way replayed like an enumerated one; "
-                    "one replayed history per distinct state x enabled operation, on debug and release, default and forbid_unsafe builds"}
+                    "one replayed history per distinct state x enabled operation, on debug and release, default and forbid_unsafe builds; "
+                    "ApiTrace.tla (code -> spec): seeded random call sequences of 20-36 calls over inputs of 3-9 characters executed on the real API, every recorded call must be an operation LexerAPI.tla enables with the recorded result and observation, SpanInv invariant of the trace specification, "
+                    "acceptance by postcondition; each run corrupts one recorded observation of the accepted trace and requires the rejection at that event"}
 
 
 def check_C14(tier, seed, rest):
